@@ -246,7 +246,11 @@ func (c *Container) Peek(n int) []byte {
 		return c.compartments[c.offset][:n]
 	}
 
-	// Start gathering data.
+	// Start gathering data, but never more than is held: the requested amount
+	// comes from the caller and may be arbitrarily large.
+	if held := c.Length(); n > held {
+		n = held
+	}
 	slice := make([]byte, n)
 	copySlice := slice
 	n = 0
